@@ -19,20 +19,6 @@ def parseSyms : List String → Option (List Sym)
   | [] => some []
   | x :: xs => do let a ← parseSym x; let r ← parseSyms xs; pure (a :: r)
 
-/-- the states visited along a path -/
-def statesAlong (m : Machine) (q : Nat) : List Sym → List Nat
-  | [] => []
-  | a :: rest => match m.step q a with
-    | some q' => q' :: statesAlong m q' rest
-    | none => []
-
-/-- timer model run: start-up setState, then one setState per transition (a TimeoutFunc is
-    represented by its largest value) -/
-def timerAfter (m : Machine) (path : List Sym) : Option T :=
-  let fv := fun q => match m.stateOf q with | some s => s.tfMaxMs | none => 0
-  run (cfgOf m) (init m.init)
-    (Ev.setState m.init (fv m.init) :: (statesAlong m m.init path).map (fun q => Ev.setState q (fv q)))
-
 def handleOp (line : String) : Out :=
   match (line.splitOn ";").map tokens with
   | ["tmo" :: proto :: role :: pct :: path, [nxt]] =>
